@@ -144,6 +144,7 @@ type Frame struct {
 	edgeGuard  map[[2]int]string
 	loopLimit  map[int]token.Pos
 	heapLocals map[string]Val // named locals that live on the heap (address taken)
+	envPos     token.Pos      // program point for name resolution in call-site / exit environments
 	rangeIt    map[ssa.Value]*mapRange // range-over-map iterators
 }
 
@@ -1479,6 +1480,14 @@ func (u *Unit) instr(f *Frame, st *State, ins ssa.Instruction) {
 		u.unsupported(f, st, ins)
 	case *ssa.Go:
 		u.em.assumes = append(u.em.assumes, "goroutine body not followed: "+x.Common().String())
+		// call-site obligations also apply to `go f(args)`
+		if callee := x.Common().StaticCallee(); callee != nil {
+			var args []Val
+			for _, a := range x.Common().Args {
+				args = append(args, u.value(f, st, a))
+			}
+			u.callSiteObligations(f, st, callee, u.ctx.fullKey(callee), args, x.Pos())
+		}
 	default:
 		u.unsupported(f, st, ins)
 	}
